@@ -50,7 +50,7 @@
 typedef struct { char kind; long a, b; } op_t;
 typedef struct {
     int id, nbw, level, strat, ovlog, rsync, ldm, cksum, wlog, dict, kind; long jobsize; unsigned long long iseed; long isize;
-    int policy; unsigned long long seed; int stay, fam, famarg;
+    int policy; unsigned long long seed; int stay, fam, famarg, probe;
     int sched_len; int* sched_t; int* sched_w;
     int nops; op_t ops[MAXOPS]; char dump[512];
 } case_t;
@@ -71,15 +71,32 @@ static int cur_tid(void) { return zv_self(); }
 #else
 static __thread int tl_worker = 1; static int cur_tid(void) { return tl_worker; }
 #endif
+/* every block carries a header; freed blocks are poisoned and never handed out again (quarantine), so that a use after free reads
+ * 0xDD.. (crash / garbage caught by the oracles) and a double free is seen here; the child process is short-lived */
+typedef struct { size_t n; size_t magic; } c11_hdr;
+#define C11_LIVE 0xA110CA7EUL
+#define C11_DEAD 0xDEADF4EEUL
 static void* c11_alloc(void* o, size_t n) {
+    c11_hdr* h;
     (void)o;
     if (cur_tid() != 0 && __atomic_load_n(&g_fail_at, __ATOMIC_SEQ_CST) >= 0) {
         long const k = __atomic_fetch_add(&g_wallocs, 1, __ATOMIC_SEQ_CST);
         if (k == __atomic_load_n(&g_fail_at, __ATOMIC_SEQ_CST)) { __atomic_store_n(&g_fail_at, -1, __ATOMIC_SEQ_CST); printf("FAULT %d\n", cur_tid()); return NULL; }
     }
-    return malloc(n);
+    h = (c11_hdr*)malloc(n + sizeof *h);
+    if (!h) return NULL;
+    h->n = n; h->magic = C11_LIVE;
+    return h + 1;
 }
-static void c11_free(void* o, void* p) { (void)o; free(p); }
+static void c11_free(void* o, void* p) {
+    c11_hdr* h;
+    (void)o;
+    if (!p) return;
+    h = (c11_hdr*)p - 1;
+    if (h->magic != C11_LIVE) { oracle("free of a block that is not live (double free)"); return; }
+    h->magic = C11_DEAD;
+    memset(p, 0xDD, h->n);
+}
 
 /* ---------- input generator ---------- */
 static unsigned long long g_rs;
@@ -177,7 +194,11 @@ static void print_state(void) {
         ZSTDMT_jobDescription* j = &m->jobs[k];
         printf(" %u:%ld:%zu:%ld:%zu:%zu:", j->jobID, off_of(j->src.start), j->src.size, off_of(j->prefix.start), j->prefix.size, j->consumed);
         if (ZSTD_isError(j->cSize)) printf("E"); else printf("%zu", j->cSize);
+#ifdef C11_NO_JOBCOMPLETED   /* the sources have no jobCompleted flag (fix c655545 absent): the model's flag has no counterpart */
+        printf(":%d:%u:%u:%u:%zu:%u", j->dstBuff.start != NULL, j->firstJob, j->lastJob, j->frameChecksumNeeded, j->dstFlushed, 0U);
+#else
         printf(":%d:%u:%u:%u:%zu:%u", j->dstBuff.start != NULL, j->firstJob, j->lastJob, j->frameChecksumNeeded, j->dstFlushed, j->jobCompleted);
+#endif
     }
     printf(" | own");
     for (k = 0; k <= m->jobIDMask; k++) printf(" %d", owner_of(&m->jobs[k].job_mutex));
@@ -341,6 +362,22 @@ static void print_initp(void) {
     printf("\n");
 }
 
+/* progress accounting (ZSTD_getFrameProgression / ZSTD_toFlushNow -> ZSTDMT_getFrameProgression / ZSTDMT_toFlushNow) between two calls
+ * of an open frame: ingested and flushed are exactly what the application handed in / received; the other counters are bounded by them.
+ * The calls take the job mutexes: their scheduler steps are bracketed by PROBE lines and are not steps of the model. */
+static void probe_progress(void) {
+    size_t tf; ZSTD_frameProgression fp; char b[256];
+    printf("PROBE begin\n");
+    tf = ZSTD_toFlushNow(g_cctx);
+    fp = ZSTD_getFrameProgression(g_cctx);
+    printf("PROBE end\n");
+    if (fp.ingested != (unsigned long long)(g_inpos - g_fin_off)) { snprintf(b, sizeof b, "frame progression: ingested %llu but the application handed in %zu bytes", fp.ingested, g_inpos - g_fin_off); oracle(b); }
+    if (fp.flushed != (unsigned long long)(g_outpos - g_fout_off)) { snprintf(b, sizeof b, "frame progression: flushed %llu but the application received %zu bytes", fp.flushed, g_outpos - g_fout_off); oracle(b); }
+    if (fp.consumed > fp.ingested) oracle("frame progression: consumed > ingested");
+    if (fp.flushed > fp.produced) oracle("frame progression: flushed > produced");
+    if (tf > fp.produced - fp.flushed) { snprintf(b, sizeof b, "ZSTD_toFlushNow %zu exceeds produced - flushed = %llu", tf, fp.produced - fp.flushed); oracle(b); }
+}
+
 static size_t one_call(ZSTD_EndDirective e, size_t in_more, size_t out_more) {
     ZSTD_inBuffer ib; ZSTD_outBuffer ob; size_t r; int init_now;
     if (in_more > g_incap - g_inpos) in_more = g_incap - g_inpos;
@@ -360,6 +397,7 @@ static size_t one_call(ZSTD_EndDirective e, size_t in_more, size_t out_more) {
     if (init_now) { if (g_cctx->appliedParams.nbWorkers > 0) print_initp(); else printf("INITST\n"); }
     g_inpos = ib.pos; g_outpos = ob.pos;
     if (ZSTD_isError(r)) printf("RET E %s\n", ZSTD_getErrorName(r)); else printf("RET %zu\n", r);
+    if (C.probe && !ZSTD_isError(r) && g_frame_open && !(e == ZSTD_e_end && r == 0) && g_cctx->appliedParams.nbWorkers > 0 && g_cctx->streamStage != zcss_init) probe_progress();
     if (ZSTD_isError(r)) { g_frame_open = 0; g_outpos = g_fout_off; }
     else if (e == ZSTD_e_end && r == 0) {
         if (g_nframes < MAXFRAMES) { frame_t* f = &g_frames[g_nframes++]; f->in_off = g_fin_off; f->in_len = g_inpos - g_fin_off; f->out_off = g_fout_off; f->out_len = g_outpos - g_fout_off; f->cksum = C.cksum; f->dictmode = g_cur_dictmode; }
@@ -472,7 +510,7 @@ static int parse_case(char* line) {
         else if (!strcmp(tok, "wlog")) C.wlog = atoi(v); else if (!strcmp(tok, "dict")) C.dict = atoi(v); else if (!strcmp(tok, "kind")) C.kind = atoi(v);
         else if (!strcmp(tok, "iseed")) C.iseed = strtoull(v, NULL, 10); else if (!strcmp(tok, "isize")) C.isize = atol(v);
         else if (!strcmp(tok, "policy")) C.policy = v[0]; else if (!strcmp(tok, "seed")) C.seed = strtoull(v, NULL, 10); else if (!strcmp(tok, "stay")) C.stay = atoi(v);
-        else if (!strcmp(tok, "fam")) C.fam = atoi(v); else if (!strcmp(tok, "famarg")) C.famarg = atoi(v);
+        else if (!strcmp(tok, "fam")) C.fam = atoi(v); else if (!strcmp(tok, "famarg")) C.famarg = atoi(v); else if (!strcmp(tok, "probe")) C.probe = atoi(v);
         else if (!strcmp(tok, "dump")) { strncpy(C.dump, v, sizeof C.dump - 1); }
         else if (!strcmp(tok, "sched")) {
             char* p = v; if (strcmp(v, "-")) while (*p) { int a = (int)strtol(p, &p, 10), b = 0; if (*p == ':') b = (int)strtol(p + 1, &p, 10); if (C.sched_len < ZV_MAXSTEPS_PARSE) { st[C.sched_len] = a; sw[C.sched_len] = b; C.sched_len++; } if (*p == ',') p++; else break; }
